@@ -706,7 +706,7 @@ static void run_child(size_t from, size_t to, int progress_fd, const char *outpa
     if (write(progress_fd, &idx, sizeof idx) != sizeof idx) _exit(4);
     J v;
     bool parsed = cj::parse(g_lines[i], v);
-    alarm(parsed && v["alarm"].num() > 0 ? (unsigned)v["alarm"].num() : 10);   // watchdog: "the call terminates"
+    alarm(parsed && v["alarm"].num() > 0 ? (unsigned)v["alarm"].num() : 20);   // watchdog: "the call terminates"
     if (!parsed) { fprintf(out, "{\"id\":\"%s\",\"badvector\":1}\n", get_id(g_lines[i]).c_str()); continue; }
     std::string op = v["op"].s, body;
     if (op == "parse") body = op_parse(v);
